@@ -11,8 +11,8 @@ wrapper of a queued / pool-inlined task, 1: the bulk loop, 2: `schedule()`).
   reset (`C04_no_pass_after_cancel`, `C04_cancelled_monotone`);
 * every body of a set task begins only from a frame that holds a passed check
   (`C04_begin_needs_guard`), and that check is an earlier accepted `tsGuard S false _` event of the
-  same thread, executed by the same call frame while `S` was not cancelled
-  (`C04_body_after_passed_guard`).
+  same thread, executed by the same call frame while `S` was not cancelled, with no other `begin_`
+  of that frame in between — one passed check per body (`C04_body_after_passed_guard`).
 -/
 namespace Dispenso.Sched
 
@@ -65,10 +65,10 @@ theorem C04_begin_needs_guard {s s' : St} {t id S : Nat} (h : Reach s)
 can be continued by `(t, begin_ id)` with `id` a task of set `S ≠ 0`: `tr` contains an earlier event
 `(t, tsGuard S false site)`, accepted in a state `s1` in which `S` was not cancelled, executed by
 the same call frame that now begins the body — the stack of `t` had the same depth then and was
-never lower in between — and, when the body is that of a packaged task (the frame is not in the
-`inlTs` state), with no `begin_` event of `t` at that depth in between (each packaged body has its
-own guard; in the unpackaged `inlTs` case one passed check of the bulk call may cover several
-bodies, exactly as the ledger allows).
+never lower in between — and with no `begin_` event of `t` at that depth in between: every body of
+a set task has a passed cancel check of its own, in all three cases (`guarded S`, `inlGuarded S`:
+the package wrapper's guard; `inlTs`: the check of the call that decided to run the task unpackaged
+— one check never covers two bodies, since `tsInline` and every `begin_` consume it).
 
 `end_` events of `t` in between at that frame depth are thereby excluded as well: they would pop a
 body frame sitting directly on this frame, which needs a `begin_` at this depth first. -/
@@ -79,22 +79,19 @@ theorem C04_body_after_passed_guard {tr : List (Nat × Ev)} {s s' : St} {t id S 
       run (St.init 0) tr1 = some s1 ∧ step s1 t (.tsGuard S false site) = some s2 ∧
       S ∉ s1.cancelled ∧ (s1.stack t).length = (s.stack t).length ∧
       (∀ a b sm, tr2 = a ++ b → run s2 a = some sm → (s.stack t).length ≤ (sm.stack t).length) ∧
-      ((s.top t).pend ≠ .inlTs → ∀ a id' b sm, tr2 = a ++ (t, Ev.begin_ id') :: b →
+      (∀ a id' b sm, tr2 = a ++ (t, Ev.begin_ id') :: b →
         run s2 a = some sm → (sm.stack t).length ≠ (s.stack t).length) := by
   have hH := Hist.of_run hrun
   obtain ⟨f, rest, hs0⟩ := norm_exists (s.thr t)
   have hdepth : (s.stack t).length = rest.length + 1 := by rw [stack_eq_norm, hs0]; rfl
   have hg := C04_begin_needs_guard ⟨tr, hrun⟩ hs hsub hS
-  rw [top_eq hs0] at hg ⊢
-  have hob := hH t [] f rest S (by rw [hs0]; rfl)
+  rw [top_eq hs0] at hg
   rw [hdepth]
-  rcases hg with hp | hp | ⟨hp, hset⟩
-  · obtain ⟨tr1, tr2, site, s1, s2, h1, h2, h3, h4, h5, h6, h7⟩ := hob.1 (Or.inl hp)
-    exact ⟨tr1, tr2, site, s1, s2, h1, h2, h3, h4, h5, h6, fun _ => h7 rfl⟩
-  · obtain ⟨tr1, tr2, site, s1, s2, h1, h2, h3, h4, h5, h6, h7⟩ := hob.1 (Or.inr hp)
-    exact ⟨tr1, tr2, site, s1, s2, h1, h2, h3, h4, h5, h6, fun _ => h7 rfl⟩
-  · obtain ⟨tr1, tr2, site, s1, s2, h1, h2, h3, h4, h5, h6, _⟩ := hob.2 (Or.inr ⟨hp, hset⟩)
-    exact ⟨tr1, tr2, site, s1, s2, h1, h2, h3, h4, h5, h6, fun hn => absurd hp hn⟩
+  refine hH t [] f rest S (by rw [hs0]; rfl) ?_
+  rcases hg with hp | hp | hp
+  · exact Or.inl hp
+  · exact Or.inr (Or.inl hp)
+  · exact Or.inr (Or.inr (Or.inl hp))
 
 /-! ### non-vacuity -/
 
